@@ -4476,7 +4476,15 @@ class ParameterizedMetaclass(type):
                 parameter = copy.copy(parameter)
                 parameter.owner = mcs
                 type.__setattr__(mcs,attribute_name,parameter)
-            mcs.__dict__[attribute_name].__set__(None,value)
+                try:
+                    parameter.__set__(None,value)
+                except Exception:
+                    # A rejected value must not leave the copy behind: the
+                    # class would stop following its superclass's Parameter
+                    type.__delattr__(mcs,attribute_name)
+                    raise
+            else:
+                mcs.__dict__[attribute_name].__set__(None,value)
 
         else:
             type.__setattr__(mcs,attribute_name,value)
